@@ -525,7 +525,7 @@ def rule_furthest_point_loops_stop_before_the_incumbent(eng, rep, rule="C04-7.lo
                     rep.bad(rule, site, "%s|loop-can-reach-the-incumbent|%s" % (fi.fid, lname),
                             "the loop over `%s` (points sorted from the furthest to the closest; the last entry is the incumbent) is bounded by neither `len(%s) - 1` / `npt() - 1` nor by its "
                             "callers: with enough passes %s overwrites the incumbent, which nothing has saved" % (lname, lname, short(over[0].func)))
-    rep.require_count(rule, "loops that overwrite points in order of decreasing distance from the incumbent", n, 2)
+    rep.require_count(rule, "loops that overwrite points in order of decreasing distance from the incumbent", n, 1)
 
 
 def run(eng, rep):
